@@ -47,7 +47,7 @@ func (s *MemoryDevice) GetBrightness(_ context.Context, req *traits.GetBrightnes
 
 func (s *MemoryDevice) UpdateBrightness(ctx context.Context, request *traits.UpdateBrightnessRequest) (*traits.Brightness, error) {
 	if request.GetBrightness().GetPreset() != nil {
-		res, err := s.brightness.Set(request.GetBrightness())
+		res, err := s.brightness.Set(request.GetBrightness(), resource.WithUpdateMask(request.UpdateMask))
 		if err != nil {
 			return nil, err
 		}
@@ -126,6 +126,7 @@ func (s *MemoryDevice) UpdateBrightness(ctx context.Context, request *traits.Upd
 
 	res, err := s.brightness.Set(
 		request.Brightness,
+		resource.WithUpdateMask(request.UpdateMask),
 		// if there's a tween in progress, clear the tween props
 		resource.WithResetPaths("target_level_percent", "brightness_tween"),
 		resource.InterceptBefore(func(old, change proto.Message) {
